@@ -70,6 +70,8 @@ def run(chk, tier):
                               "the touch-everything TU of %s (every accessor / trait / visitor entry point under its schema name) "
                               "does not compile under %s: %s" % (s.name, std, [l for l in str(e).splitlines() if "error:" in l][:2]))
     chk.floor("standalone headers", chk.rule_counts.get("E5.standalone", 0), 300)
+    import gcov
+    gcov.attach(chk)      # which generator code templates the 24 schemas reach (evidence only)
     return chk.finish(
         explanation=("For all schemas: G-TPL (every replacement field of the ~260 generator templates is bound, format strings "
                      "are literals), G-FLOW a (schema free text never reaches a C++ string/char literal unescaped - finding "
